@@ -10,7 +10,8 @@ def jobs(tier):
     strata = [dict(name="reader/v3000/S-shape", ns=[2, 3] + ([4] if t else []), pin={3: 3, 4: 6}, params=dict(K_m=1, K_r=1)),
               dict(name="reader/v3000/S-elem4", ns=[2] + ([3] if t else []), pin={3: 3}, params=dict(K_m=1, K_r=0, alphabet=SIGMA_T4)),
               dict(name="reader/v2000/S-shape", ns=[2, 3], pin={3: 3}, params=dict(K_m=1, K_r=1, v2000=True)),
-              dict(name="reader/v2000-one-entry-per-line/S-shape", ns=[2, 3], pin={3: 3}, params=dict(K_m=2, K_r=0, v2000=True, one_entry_per_line=True))]
+              dict(name="reader/v2000-one-entry-per-line/S-shape", ns=[2, 3], pin={3: 3}, params=dict(K_m=2, K_r=0, v2000=True, one_entry_per_line=True)),
+              dict(name="reader/v2000-one-radical-per-line/S-shape", ns=[2, 3], pin={3: 3}, params=dict(K_m=0, K_r=2, rad_hi=3, v2000=True, one_entry_per_line=True))]
     js += shape_strata("harness.readers", "c01_reader", tier, quick=strata, thorough=strata, max_seconds=3000 if t else 240)
     return js
 
